@@ -94,6 +94,7 @@ type Shared struct {
 	maxViol    int
 	deadline   time.Time
 	timedOut   bool
+	stoppedEarly bool
 	done       bool
 	assumeKill map[string]int64
 }
@@ -510,7 +511,9 @@ func (w *Worker) recordViolation(id, msg string, notC *Term) {
 	if sh.violCount[key] <= 3 {
 		sh.violations = append(sh.violations, Violation{Harness: w.harness, Assert: id, Msg: msg, Inputs: inputs, Known: known})
 	}
-	if sh.maxViol > 0 && len(sh.violations) >= sh.maxViol {
+	// plenty of counterexamples for an unlisted violation: stop exploring
+	if known == "" && sh.violCount[key] >= 25 {
+		sh.stoppedEarly = true
 		atomic.StoreInt32(&sh.stop, 1)
 	}
 }
@@ -747,6 +750,7 @@ func RunHarness(prog *ssa.Program, fn *ssa.Function, name string, nworkers int, 
 			tt := newTermTable()
 			in := newInterp(prog, tt)
 			in.trace = opts["trace"]
+			in.shaRealConst = opts["sharealconst"]
 			sv, err := newSolver(solverKind, tt, timeoutMs)
 			if err != nil {
 				fmt.Fprintln(os.Stderr, "solver:", err)
